@@ -225,6 +225,10 @@ pub struct Io {
     pub fail_read_at: Option<usize>,
     /// ... and every call after it
     pub fail_read_sticky: bool,
+    /// the injected source failure is ErrorKind::Interrupted
+    pub fail_read_interrupted: bool,
+    /// (position, count): Interrupted `count` times in a row at that offset
+    pub interrupt_burst: Option<(usize, usize)>,
 }
 
 /// Present `input` through `kind`, call `f(reader, sink)`, and report verdict,
@@ -268,6 +272,8 @@ pub fn run_with<E: std::fmt::Debug>(
             let mut cr = ChunkyReader::new(input, pattern.clone()).with_stops(stops.clone());
             cr.fail_at = io.fail_read_at;
             cr.fail_sticky = io.fail_read_sticky;
+            cr.fail_interrupted = io.fail_read_interrupted;
+            cr.interrupt_burst = io.interrupt_burst;
             let res = f(&mut cr, &mut sink);
             consumed = cr.position();
             source_calls = cr.calls;
